@@ -227,7 +227,11 @@ func (p *Path) callSSA(th *Thread, caller *frame, fn *ssa.Function, args []Value
 		}
 	}
 	if fn.Blocks == nil {
-		engErr("no code for function %s (needs a stub)", fn.String())
+		st := ""
+		if th != nil {
+			st = th.stack()
+		}
+		engErr("no code for function %s (needs a stub)\n%s", fn.String(), st)
 	}
 	if fn.TypeParams().Len() > 0 && len(fn.TypeArgs()) == 0 {
 		engErr("uninstantiated generic function %s", fn)
@@ -559,8 +563,14 @@ func (p *Path) visitInstr(fr *frame, instr ssa.Instruction) continuation {
 			p.goPanic(fr, "makeslice: len out of range")
 		}
 		s := make([]Value, cp)
-		for i := range s {
-			s[i] = zero(tElt)
+		if z, ok := zero(tElt).(*Term); ok {
+			for i := range s {
+				s[i] = z
+			}
+		} else {
+			for i := range s {
+				s[i] = zero(tElt)
+			}
 		}
 		fr.env[instr] = s[:ln]
 
